@@ -1295,6 +1295,7 @@ fn c15_families(tier: &str) -> Vec<C15Bounds> {
             C15Bounds { min_workers: 3, max_workers: 3, max_running: 0, max_n: 3, max_tasks: 6, ..f("3w-idle: three idle workers, cpus 1-4; <=3 groups, n<=3, <=6 tasks") },
             C15Bounds { min_workers: 3, max_workers: 3, max_running: 1, cpus: vec![2, 4], max_groups: 2, max_n: 2, max_tasks: 4, ..f("3w-busy: three workers cpus {2,4}, each idle or one running task; 2 groups, n<=2") },
             C15Bounds { min_workers: 1, max_workers: 2, cpus: vec![2, 4], gpus: vec![0, 1, 2], shapes: vec![(1, 0), (2, 0), (1, 1), (2, 1), (1, 2)], max_running: 0, max_n: 2, max_tasks: 5, ..f("gpu: one or two idle workers cpus {2,4} x gpus {0,1,2}; 5 shapes, <=3 groups, n<=2, <=5 tasks") },
+            C15Bounds { max_running: 0, max_groups: 5, max_classes: 2, max_levels: 4, max_n: 2, max_tasks: 6, ..f("1w-5g-2cl: one idle worker, cpus 1-4; <=5 groups of <=2 classes on <=4 levels (a class alone, then a tie of two classes, then alone again), n<=2, <=6 tasks") },
             C15Bounds { min_workers: 1, max_workers: 2, max_running: 0, max_groups: 8, max_classes: 2, max_levels: 8, max_n: 1, max_tasks: 8, one_group_per_level: true, ..f("levels8: one or two idle workers; 2 classes, 2-8 priority levels with one task each") },
         ],
         "x1" => vec![C15Bounds { max_n: 3, max_tasks: 9, ..f("x1-1w-n3") }],
@@ -1303,6 +1304,7 @@ fn c15_families(tier: &str) -> Vec<C15Bounds> {
         "x8" => vec![C15Bounds { cpus: vec![5, 6, 8], shapes: vec![(1, 0), (2, 0), (3, 0), (4, 0), (5, 0)], max_running: 0, max_n: 3, max_tasks: 9, ..f("x8-1w-big") }],
         _ => vec![
             C15Bounds { max_running: 0, max_n: 2, max_tasks: 5, ..f("1w-idle: one idle worker, cpus 1-4; <=3 groups, n<=2, <=5 tasks") },
+            C15Bounds { max_running: 0, max_groups: 4, max_classes: 2, max_levels: 3, max_n: 2, max_tasks: 5, ..f("1w-4g-2cl: one idle worker, cpus 1-4; <=4 groups of <=2 classes on <=3 levels (a class alone, then a tie of two classes, then alone again), n<=2, <=5 tasks") },
             C15Bounds { max_running: 1, max_n: 2, max_tasks: 3, ..f("1w-busy: one worker, idle or one running task; <=3 groups, n<=2, <=3 tasks") },
             C15Bounds { min_workers: 2, max_workers: 2, max_running: 0, max_n: 2, max_tasks: 5, max_classes: 2, ..f("2w-idle-2cl: two idle workers; <=3 groups of <=2 classes, n<=2, <=5 tasks") },
             C15Bounds { min_workers: 2, max_workers: 2, max_running: 0, max_n: 1, max_tasks: 3, ..f("2w-idle-3cl: two idle workers; 3 groups with one task each") },
